@@ -156,7 +156,7 @@ Proof.
     (destruct fuel as [|f]; [cbn in Hf; lia|]).
   - cbn [chain_env] in Hc. destruct Hc as [Hr [Hs _]].
     cbn [wloop mkst w_stack w_branches w_depth w_out w_marks w_visit w_mtrace].
-    unfold wstep. cbn [memz existsb w_branches w_depth w_out w_marks w_visit w_mtrace w_stack].
+    unfold wstep. cbn [memz existsb andb app w_branches w_depth w_out w_marks w_visit w_mtrace w_stack].
     cbn [chain_text].
     destruct prev as [p|]; rewrite Hp.
     + destruct (e_sym env p k) as [sym|e]; cbn [bind]; [|reflexivity].
@@ -168,7 +168,7 @@ Proof.
         rewrite ?app_nil_r, <- ?app_assoc; reflexivity.
   - cbn [chain_env] in Hc. destruct Hc as [Hr [[Hs Hp'] Hc']].
     cbn [wloop mkst w_stack w_branches w_depth w_out w_marks w_visit w_mtrace].
-    unfold wstep. cbn [memz existsb w_branches w_depth w_out w_marks w_visit w_mtrace w_stack].
+    unfold wstep. cbn [memz existsb andb app w_branches w_depth w_out w_marks w_visit w_mtrace w_stack].
     assert (E : chain_text env prev (k :: k' :: r)
                 = (sym <- match prev with None => Ok [] | Some p => e_sym env p k end ;;
                    node <- e_fmt env k ;; rest <- chain_text env (Some k) (k' :: r) ;; Ok (sym ++ node ++ rest)))
@@ -198,13 +198,13 @@ Proof.
 Qed.
 
 (** the serialisation of ANY transcript that is a chain without ring edges (unbounded length) *)
-Theorem write_chain_transcript : forall fmt sym rsym k0 rest n,
+Theorem write_chain_transcript : forall sf fmt sym rsym k0 rest n,
   NoDup (k0 :: rest) -> (length (k0 :: rest) <= n)%nat ->
-  let env := mk_env fmt sym rsym (chain_edges (k0 :: rest)) [] in
+  let env := mk_env sf fmt sym rsym (chain_edges (k0 :: rest)) [] in
   run_writer n env k0
   = (t <- chain_text env None (k0 :: rest) ;; Ok {| r_text := t; r_visit := k0 :: rest; r_mtrace := [] |}).
 Proof.
-  intros fmt sym rsym k0 rest n ND Hn env.
+  intros sf fmt sym rsym k0 rest n ND Hn env.
   assert (Hs : e_succ env = succ_chain ([] ++ k0 :: rest)) by (cbn [app]; unfold env, mk_env; cbn [e_succ]; now apply succ_of_chain).
   assert (Hp : e_pred env = pred_chain ([] ++ k0 :: rest)).
   { cbn [app]. unfold env, mk_env. cbn [e_pred]. rewrite succ_of_chain by assumption. now apply pred_of_chain. }
@@ -334,8 +334,7 @@ Qed.
 Theorem write_path_abstract : forall sf dh k0 a0 rest,
   NoDup (k0 :: rest_keys rest) -> (forall x, In x (rest_keys rest) -> k0 <= x) ->
   let g := path_graph k0 a0 rest in
-  let env := mk_env (node_text sf dh g) (edge_text g) (fun i j => if sf then edge_text g i j else Ok [])
-                    (chain_edges (k0 :: rest_keys rest)) [] in
+  let env := mk_env sf (node_text sf dh g) (edge_text g) (edge_text g) (chain_edges (k0 :: rest_keys rest)) [] in
   write_graph_full sf dh g []
   = (t <- chain_text env None (k0 :: rest_keys rest) ;; Ok {| r_text := t; r_visit := k0 :: rest_keys rest; r_mtrace := [] |}).
 Proof.
